@@ -243,6 +243,9 @@ Record tail_ctx := {
 Inductive gate_res := GNext (n : mgr_next) | GTail (c : tail_ctx).
 
 (* the switch-request block of the iteration (469-524) *)
+(* ErrManagerLockLost: the two lock re-checks of performSwitchover *)
+Definition lock_lost (e : sw_err) : bool := match e with SwErr c => (c =? 1351) || (c =? 1422) | SwOk => false end.
+
 Definition handle_switchover (cfg : config) (env : mgr_env) (m : mgr_mem) (cs : list (host * node_state)) (active : list host)
            (master : host) (sw : switch_rec) : prog mgr_mem :=
   t <- now_ 475 ;;
@@ -261,6 +264,7 @@ Definition handle_switchover (cfg : config) (env : mgr_env) (m : mgr_mem) (cs : 
                          se_uuid_of := me_uuid_of env; se_emerge_file := f_emerge |} in
           r <- perform_switchover cfg senv sw1 (mm_an m) ;;
           let m1 := with_an m (snd r) in
+          if lock_lost (fst r) then Ret m1 else       (* not the manager any more: the request is left alone *)
           Do 500 (DcsGet PSwitch) (fun g =>
             match g with
             | RErr ENotFound => Ret m1                     (* aborted meanwhile (or already finished as rejected) *)
